@@ -62,3 +62,14 @@ Definition decode_version (w : N) : vfields :=
      f_insdel := get_inserting_deleting w; f_splitting := get_splitting w;
      f_vsplit := get_vsplit w; f_deleted := get_deleted w; f_root := get_root w;
      f_border := get_border w |}.
+
+(** ** Trace monitor for the writes on a published version word (C17, tie T3).
+    [is_lock] = the write is the CAS of node_version64::lock; every other CAS on the word
+    must install one of: unlock, inc_vinsert_delete, or one flag setter, applied to the
+    word that is current at that instant. *)
+Definition ver_setters (w : N) (b : bool) : list N :=
+  set_inserting_deleting w b :: set_splitting w b :: set_deleted w b :: set_root w b :: set_border w b :: nil.
+Definition ver_write_ok (cur nw : N) (is_lock : bool) : bool :=
+  if is_lock then negb (get_locked cur) && (nw =? set_locked cur true)
+  else (nw =? unlock cur) || (nw =? inc_vinsert_delete cur)
+       || existsb (N.eqb nw) (ver_setters cur true) || existsb (N.eqb nw) (ver_setters cur false).
